@@ -196,6 +196,10 @@ def step (w : W) (toks : List String) : W × String :=
       let d := CoinList.add bal (neg l)
       (w, "ok spendable=" ++ showCoins (if isAnyNegative d then [] else nz d))
     | none => (w, "panic")
+  | ["v.updateDenom", auth, d] =>
+    match updateDenom w.st (auth = "gov") (unesc d) with
+    | some s => ({ w with st := s }, "ok denom=" ++ esc s.denom)
+    | none => (w, "err denom=" ++ esc w.st.denom)
   | ["v.end"] => (w, ".")
   | _ => (w, "bad-op")
 
